@@ -220,6 +220,12 @@ var skels = []skel{
 	{"join-key", "id", func(_ *E, id Ident) *Program {
 		return Query("T", &Op{K: "join", Right: &Pipe{Table: Ident{Name: "U"}}, Conds: []*E{Bin("==", &E{K: "name", Parts: []Ident{{Name: "$left"}, id}}, &E{K: "name", Parts: []Ident{{Name: "$right"}, id}})}})
 	}},
+	{"sort-two", "id", func(_ *E, id Ident) *Program {
+		return Query("T", &Op{K: "sort", Terms: []SortTerm{{X: Name("a", "b"), Dir: "asc"}, {X: &E{K: "name", Parts: []Ident{id}}, Dir: "desc"}, {X: Name("c")}}})
+	}},
+	{"group-two", "id", func(_ *E, id Ident) *Program {
+		return Query("T", &Op{K: "summarize", Cols: []Col{{Name: idp("n"), X: Call("count")}}, HasBy: true, By: []Col{{Name: idp("g1"), X: Name("a", "b")}, {Name: idp("g2"), X: &E{K: "name", Parts: []Ident{id}}}}})
+	}},
 	{"join-keys-3", "id", func(_ *E, id Ident) *Program {
 		return Query("T", &Op{K: "join", Right: &Pipe{Table: Ident{Name: "U"}}, Conds: []*E{Name("k1"), &E{K: "name", Parts: []Ident{id}}, Name("k3")}})
 	}},
@@ -260,6 +266,12 @@ var skels = []skel{
 	}},
 	// number holes
 	{"num-where", "num", func(h *E, _ Ident) *Program { return Query("T", &Op{K: "where", X: Bin("==", Name("a"), h)}) }},
+	{"num-strcat", "num", func(h *E, _ Ident) *Program {
+		return Query("T", &Op{K: "extend", Cols: []Col{{Name: idp("s"), X: Call("strcat", Name("a"), Str("'v'", "v"), h, Str("'w'", "w"))}}})
+	}},
+	{"num-in-list", "num", func(h *E, _ Ident) *Program {
+		return Query("T", &Op{K: "where", X: In(Name("a"), Num("1"), h, Num("3"))})
+	}},
 	{"num-take", "int", func(h *E, _ Ident) *Program { return Query("T", &Op{K: "take", X: h}) }},
 	{"num-top", "int", func(h *E, _ Ident) *Program {
 		return Query("T", &Op{K: "top", X: h, Terms: []SortTerm{{X: Name("a")}}})
@@ -410,6 +422,19 @@ func generate(w *mon.W) {
 			// different content)
 			{
 				seen := map[string]bool{}
+				// two neighbouring names read as one dotted name (`a.b` is one name, a.b is two)
+				if toks := Tokens(Print(sk.mk(nil, Ident{Name: placementRef, Quoted: true}), Layout{Mode: 0}).Src); true {
+					for i := 0; i+2 < len(toks); i++ {
+						if toks[i].Kind == parser.TokenIdentifier && toks[i+1].Kind == parser.TokenDot && toks[i+2].Kind == parser.TokenIdentifier {
+							f := toks[i].Val + "." + toks[i+2].Val
+							if !seen[f] {
+								seen[f] = true
+								c := &Case{Skel: sk.name, Kind: "id", Fill: f}
+								w.Do(fmt.Sprintf("%s|%s", sk.name, f), func(r *mon.R) { Check(c, r) })
+							}
+						}
+					}
+				}
 				for _, t := range Tokens(Print(sk.mk(nil, Ident{Name: placementRef, Quoted: true}), Layout{Mode: 0}).Src) {
 					if (t.Kind == parser.TokenIdentifier || t.Kind == parser.TokenQuotedIdentifier) && t.Val != placementRef && t.Val != "" {
 						for _, f := range []string{t.Val, strings.ToUpper(t.Val), strings.ToLower(t.Val), strings.ToUpper(t.Val[:1]) + t.Val[1:], t.Val[:len(t.Val)-1] + strings.ToUpper(t.Val[len(t.Val)-1:])} {
